@@ -1,6 +1,6 @@
 #!/bin/sh
 # usage: tools/multiseed.sh "C01 C02 ..." "1 2 3"  - run quick checks under several seeds, print one line each
-cd "$(dirname "$0")/.."
+cd "$(dirname "$0")/.." && mkdir -p out
 for p in $1; do for s in $2; do
   ./check $p --tier quick --seed $s > out/ms_${p}_$s.log 2>&1; echo "$p seed=$s exit=$? $(tail -1 out/ms_${p}_$s.log)"
 done; done
